@@ -1182,8 +1182,9 @@ impl<'p> Exec<'p> {
                 }
             };
             let mut rng = StdRng::seed_from_u64(seed);
+            let in_one = self.plan.cfg.builder_made_in_one_thread_pool;
             catch_unwind(AssertUnwindSafe(|| {
-                let mut b = w.builder(&mut rng);
+                let mut b = if in_one { one_thread_pool().install(|| w.builder(&mut rng)) } else { w.builder(&mut rng) };
                 if let Some(n) = n_trees {
                     b.n_trees(n);
                 }
@@ -1855,6 +1856,12 @@ impl<'p> Exec<'p> {
 pub fn harness_error(msg: &str) -> ! {
     eprintln!("HARNESS-ERROR {msg}");
     std::process::exit(2);
+}
+
+/// A rayon pool of one thread, only ever used to *create* builders in.
+fn one_thread_pool() -> &'static rayon::ThreadPool {
+    static POOL: std::sync::OnceLock<rayon::ThreadPool> = std::sync::OnceLock::new();
+    POOL.get_or_init(|| rayon::ThreadPoolBuilder::new().num_threads(1).build().expect("one-thread pool"))
 }
 
 /// While alive, the process default temp directory (TMPDIR) points at a path that does not exist.
